@@ -75,6 +75,17 @@ fn ops_json(ops: &[GOp]) -> String {
     }))
 }
 
+/// `len()` of the iterator, u64::MAX - 7 if `size_hint()` disagrees with it (recorded as a length no
+/// reference iterator can have, so every comparison downstream fails and names the call)
+fn checked_len<G: ExactSizeIterator>(g: &G) -> u64 {
+    let l = g.len();
+    if g.size_hint() == (l, Some(l)) {
+        l as u64
+    } else {
+        u64::MAX - 7
+    }
+}
+
 fn run_mode<G, A>(
     mk: &dyn Fn() -> Option<G>,
     oneshot: &dyn Fn(Option<u32>) -> A,
@@ -105,20 +116,20 @@ where
     // plain iteration
     let plain = catch_unwind(AssertUnwindSafe(|| {
         let mut g = mk()?;
-        let len0 = g.len() as u64;
+        let len0 = checked_len(&g);
         let mut vals = Vec::new();
         let mut lens = Vec::new();
         // guard: a wrapped `len` must not make us loop forever
         while let Some(a) = g.next() {
             vals.push(a.json());
-            lens.push(g.len() as u64);
+            lens.push(checked_len(&g));
             if vals.len() as u64 > total + 8 {
                 break;
             }
         }
         // after exhaustion: further calls must keep returning None
         let after = [g.next().is_none(), g.nth(0).is_none(), g.next().is_none()];
-        let len_end = g.len() as u64;
+        let len_end = checked_len(&g);
         Some((len0, vals, lens, after, len_end))
     }));
     match plain {
@@ -147,7 +158,7 @@ where
                     GOp::Nth(k) => g
                         .nth(usize::try_from(*k).unwrap_or(usize::MAX))
                         .map_or("null".to_string(), |a| a.json()),
-                    GOp::Len => (g.len() as u64).to_string(),
+                    GOp::Len => checked_len(&g).to_string(),
                 });
             }
             Some(outs)
